@@ -96,6 +96,43 @@ def list_schemes() -> list[str]:
     return [s.value for s in Scheme]
 
 
+def linearize(expr: sympy.Expr, symbol: sympy.Symbol) -> sympy.Expr:
+    """Derivative of a (real valued) rate expression with respect to its own state
+
+    sympy leaves the derivatives of floor and Mod unevaluated, and the derivative of
+    the absolute value of an expression it cannot prove to be real (e.g. x**0.5)
+    contains re() and im(). None of these can be printed. Here floor is treated as
+    piecewise constant, Mod(a, b) as a - b*floor(a/b), and abs(f) as sqrt(f**2).
+
+    Parameters
+    ----------
+    expr : sympy.Expr
+        The rate expression
+    symbol : sympy.Symbol
+        The symbol of the state
+
+    Returns
+    -------
+    sympy.Expr
+        The derivative
+    """
+    diff = expr.diff(symbol)
+    if not diff.has(sympy.Derivative, sympy.Subs, sympy.re, sympy.im):
+        return diff
+
+    expr = expr.replace(sympy.Mod, lambda a, b: a - b * sympy.floor(a / b))
+    expr = expr.replace(
+        lambda e: isinstance(e, sympy.Abs) and e.args[0].is_real is not True,
+        lambda e: sympy.sqrt(e.args[0] ** 2),
+    )
+    diff = expr.diff(symbol)
+    diff = diff.replace(
+        lambda e: isinstance(e, sympy.Derivative) and e.has(sympy.floor),
+        lambda e: sympy.S.Zero,
+    )
+    return diff.doit()
+
+
 def fraction_numerator_is_nonzero(expr):
     """Perform a very cheap check to detect if a fraction is definitely non-zero."""
 
@@ -249,7 +286,7 @@ def hybrid_rush_larsen(
         if not isinstance(x, atoms.StateDerivative):
             continue
 
-        expr_diff = x.expr.diff(x.state.symbol)
+        expr_diff = linearize(x.expr, x.state.symbol)
         state_is_stiff = x.state.name in stiff_states_set
 
         if not state_is_stiff or expr_diff.is_zero:
@@ -344,7 +381,7 @@ def generalized_rush_larsen(
         if not isinstance(x, atoms.StateDerivative):
             continue
 
-        expr_diff = x.expr.diff(x.state.symbol)
+        expr_diff = linearize(x.expr, x.state.symbol)
 
         if expr_diff.is_zero:
             # Use forward Euler
